@@ -200,6 +200,17 @@ def throttle_model(ctx):
     from .common import apalache_inductive
     shutil.copy(os.path.join(SPEC, "ThrottleInd.tla"), d)
     ind = apalache_inductive("ThrottleInd.tla", d)
+    # unbounded: TLAPS proof of the bound for every Limit and any number of callbacks
+    import re as _re
+    pd = os.path.join(d, "proof")
+    os.makedirs(pd, exist_ok=True)
+    shutil.copy(os.path.join(SPEC, "ThrottleProof.tla"), pd)
+    from .common import run as _run
+    pr0 = _run(["timeout", "900", "tlapm", "--threads", "8", "ThrottleProof.tla"], cwd=pd, check=False)
+    mm = _re.search(r"All (\d+) obligations? proved", pr0.stdout)
+    if not mm:
+        raise MachineryError("tlapm did not prove ThrottleProof.tla:\n" + pr0.stdout[-1500:])
+    proved = int(mm.group(1))
     # direct drive of the real Throttle
     binp = tables.build_fn(ctx.workdir)
     td = os.path.join(ctx.workdir, "thrtrace")
@@ -225,7 +236,8 @@ def throttle_model(ctx):
             viols.append(dict(p="C19", why="directly driven Throttle: " + v["why"], kf="", confirmed=True))
     cov = dict(states=tot_s, transitions=tot_t, traces_validated_against_impl=1, evaluations=lines, distinct_nontrivial=lines,
                samples=[{"model": "spec/Throttle.tla limits 1..3, invariants Bounded/Saturated/Consistent/FIFO, liveness AllStart under WF(Done)"},
-                        {"apalache": "spec/ThrottleInd.tla: Init => IndInv, IndInv /\\ Next => IndInv', IndInv => Safety (%d obligations, Limit 1..4, up to 7 callbacks, any depth)" % ind}],
+                        {"apalache": "spec/ThrottleInd.tla: Init => IndInv, IndInv /\\ Next => IndInv', IndInv => Safety (%d obligations, Limit 1..4, up to 7 callbacks, any depth)" % ind},
+                        {"tlaps": "spec/ThrottleProof.tla: THEOREM Spec => []Bounded for every Limit in Nat and any number of callbacks, %d proof obligations discharged by tlapm" % proved}],
                rule="exhaustive TLC on Throttle.tla; random Add/Done orders on the real Throttle validated step by step by ThrottleTrace.tla", exhaustive=False)
     return dict(coverage=cov, violations=viols, level="model_checking", assumptions=["every started callback eventually calls Done (weak fairness)"])
 
@@ -376,8 +388,8 @@ def directcount_model(ctx):
 PROPS["C08"] = dict(run=tables.combine(directcount_model, gateway_run(["gc", "cache", "win-gc", "win-evict"], ["cres"])))
 
 PROPS["C19"] = dict(run=tables.combine(throttle_model, gateway_run(["thr-ref1", "thr-ref2", "thr-reset1", "thr-reset2"], ["note", "mreq"])))
-TEXT["C19"] = _t("spec/Throttle.tla is model-checked exhaustively (bound, saturation, FIFO hand-over, every added callback eventually starts under any answer order); the real Throttle is driven directly and every Add/Done validated against it; at system level the thrAdd/thrDone notes of replayed schedules with reset/reference throttles of 1 and 2 are checked against the same transition rules, the limit, and emptiness at quiescence.",
-                 "TLC exhaustive on Throttle.tla + trace validation of the real Throttle (ThrottleTrace.tla) + observer rules on gateway traces")
+TEXT["C19"] = _t("spec/ThrottleProof.tla: tlapm proves that never more than Limit callbacks are outstanding, for every Limit and any number of callbacks; spec/ThrottleInd.tla: Apalache shows the full safety invariant inductive (bounded constants, any depth); spec/Throttle.tla is model-checked exhaustively (bound, saturation, FIFO hand-over, every added callback eventually starts under any answer order); the real Throttle is driven directly and every Add/Done validated against it; at system level the thrAdd/thrDone notes of replayed schedules with reset/reference throttles of 1 and 2 are checked against the same transition rules, the limit, and emptiness at quiescence.",
+                 "TLAPS proof + Apalache inductive invariant + TLC exhaustive on Throttle.tla + trace validation of the real Throttle (ThrottleTrace.tla) + observer rules on gateway traces")
 
 # on the life family the convergence predicate is part of C20: after a restart nothing may be served from the old cache
 def lifecycle_model(ctx):
